@@ -24,6 +24,7 @@ import EtkVerif.Annot.Total
 import EtkVerif.Annot.TotalExact
 import EtkVerif.Cfg.Lemmas
 import EtkVerif.Cfg.Pipeline
+import EtkVerif.Cfg.PipelineExact
 namespace EtkVerif.C15
 open Ops Annot Smt Cfg
 
@@ -90,5 +91,27 @@ example :
     (totx_replicate_hops _ _ (by decide)) (totx_replicate_hshape _ _ _ (by decide +kernel))
     (by show inputsNeeded Gen.cancun (List.replicate 3856 ⟨0x9f, []⟩) ≤ 65535; rw [hn]; decide)
   exact ⟨a, ha, by rw [hi]; exact hn⟩
+
+/-- `C15_pipeline` with the exact hypothesis: every block needs at most 65535 input
+variables (`inputsNeeded`) instead of `popBudget ≤ 65535` (which implies it:
+`C15_inputs_le_budget`). -/
+theorem C15_pipeline_exact (code : List Nat) (hb : ∀ b ∈ code, b < 256) (hlen : code.length ≤ 65536)
+    (hinputs : ∀ b ∈ Pipeline.blocks code, inputsNeeded Gen.cancun b.ops ≤ 65535) (sat : List BTerm → Bool) :
+    ∃ anns g g', Pipeline.annotateAll Gen.cancun (Pipeline.blocks code) = .ok anns ∧
+      cfgNew anns = .ok g ∧ refine sat g = .ok g' :=
+  Pipeline.pipeline_total_exact code hb hlen hinputs sat
+
+/-- The converse (finding D20): if some block of the code needs more than 65535 input
+variables, the pipeline's annotate stage reports the `u16` counter overflow — so the
+hypothesis of `C15_pipeline_exact` is necessary (`C15_pipeline_annotate_iff`). -/
+theorem C15_pipeline_refused (code : List Nat) (hb : ∀ b ∈ code, b < 256)
+    (hover : ∃ b ∈ Pipeline.blocks code, 65535 < inputsNeeded Gen.cancun b.ops) :
+    Pipeline.annotateAll Gen.cancun (Pipeline.blocks code) = .error .varOverflow :=
+  Pipeline.pipeline_refused_exact code hb hover
+
+theorem C15_pipeline_annotate_iff (code : List Nat) (hb : ∀ b ∈ code, b < 256) :
+    (∃ anns, Pipeline.annotateAll Gen.cancun (Pipeline.blocks code) = .ok anns) ↔
+    ∀ b ∈ Pipeline.blocks code, inputsNeeded Gen.cancun b.ops ≤ 65535 :=
+  Pipeline.pipeline_annotate_iff code hb
 
 end EtkVerif.C15
